@@ -23,24 +23,21 @@ where
     // be in the set into new_ws, implicitly dropping any tasks that are no longer in the
     // working set.
     for elt in &old_ws[1..] {
+        let mut keep = None;
         if let Some(uuid) = elt {
             if let Some(task) = txn.get_task(*uuid).await? {
                 if in_working_set(&task) {
                     // The existing working-set item is still in the working set -- no change.
-                    new_ws.push(Some(*uuid));
+                    keep = Some(*uuid);
                     seen.insert(*uuid);
-                } else {
-                    // The item should not be present. If we are not renumbering, then insert a
-                    // blank working-set item here
-                    if !renumber {
-                        new_ws.push(None);
-                    }
                 }
-                continue;
             }
-        } else {
-            // This item was already None.
-            new_ws.push(None);
+        }
+        // An item that was already empty, or that should no longer be present (including one
+        // whose task no longer exists), leaves a blank working-set item unless we are
+        // renumbering, so that the items after it keep their indices.
+        if keep.is_some() || !renumber {
+            new_ws.push(keep);
         }
     }
 
